@@ -21,6 +21,7 @@ from nvlib import engine as E
 from nvlib.extract import TieBroken
 
 CLANG = "clang-14"
+SIZEOF_POINTER = 8
 
 LEAN_PRELUDE = r'''
 /-! C integer conversions used by the regenerated guards (value-preserving when the operand is in range) -/
@@ -248,6 +249,11 @@ class Tr:
             m = re.match(r"char ?\[(\d+)\]", t)
             if m:
                 return m.group(1)
+            t = t.replace("const ", "").strip()
+            if t.endswith("*"):
+                return str(SIZEOF_POINTER)        # the sanitizer build the harness links against is LP64
+            if t in CTYPES:
+                return str(CTYPES[t][2] // 8)
             raise OutOfGrammar("sizeof %s" % t)
         if k == "UnaryOperator":
             op = n.get("opcode")
@@ -947,6 +953,92 @@ def extract_search_indices(bdir):
     return "\n".join(out)
 
 
+# ---------------------------------------------------------------------------------------------------------------
+# f_switch(): the start-offset table, the initial step, and the SHAPE of the search loop (which updates of l / d and
+# which tests against end_tab / SWITCH_CASE_SIZE occur, in source order)
+
+def extract_switch(bdir):
+    fn = ast_function(bdir, "lib/lpc/operator.c", "f_switch")
+    # static size_t off_tab[] = { k * SWITCH_CASE_SIZE, ... }
+    decls = []
+    _walk(fn, lambda n, _: decls.append(n) if n.get("kind") == "VarDecl" and n.get("name") == "off_tab" else None)
+    if len(decls) != 1 or not decls[0].get("inner"):
+        raise TieBroken("switch:off_tab", "off_tab[] with an initialiser not found")
+    init = decls[0]["inner"][0]
+    mult = []
+    for el in init.get("inner", []):
+        e = strip(el)
+        while e.get("kind") in ("ImplicitCastExpr",):
+            e = strip(e["inner"][0])
+        if not (e.get("kind") == "BinaryOperator" and e.get("opcode") == "*"):
+            raise TieBroken("switch:off_tab", "element is not `k * SWITCH_CASE_SIZE`: %s" % c_text(el))
+        k = const_eval(e["inner"][0])
+        if k is None:
+            raise TieBroken("switch:off_tab", "multiplier is not a literal: %s" % c_text(el))
+        mult.append(k)
+    # d = (int)(off_tab[i] + SWITCH_CASE_SIZE) >> 1
+    dinit = [n["inner"][1] for n in _assigns(fn, "d") if subtree_has(n["inner"][1], lambda m: _is_ref(m, "off_tab"))]
+    if len(dinit) != 1:
+        raise TieBroken("switch:dinit", "%d initialisations of d from off_tab[]" % len(dinit))
+    tr = Tr()
+    try:
+        dx = tr.int_expr(dinit[0])
+    except OutOfGrammar as e:
+        raise TieBroken("switch:dinit", "left the grammar: %s" % e)
+    if [p[0] for p in tr.params] != ["off_tab_i"]:
+        raise TieBroken("switch:dinit", "unexpected operands %s" % [p[1] for p in tr.params])
+    # l = current_prog->program + offset + off_tab[i]
+    linit = [n for n in _assigns(fn, "l") if subtree_has(n["inner"][1], lambda m: _is_ref(m, "off_tab"))]
+    if len(linit) != 1:
+        raise TieBroken("switch:linit", "%d initialisations of l from off_tab[]" % len(linit))
+    # the search loop
+    loops = []
+    _walk(fn, lambda n, _: loops.append(n) if n.get("kind") == "ForStmt" else None)
+    if len(loops) != 1:
+        raise TieBroken("switch:loop", "%d for loops in f_switch" % len(loops))
+    nodes = []
+    _preorder(loops[0], nodes)
+    shape = []
+    is_size = lambda m: const_eval(m) is not None or c_text(m).strip("()").startswith("(int)") or subtree_has(m, lambda q: q.get("kind") == "UnaryExprOrTypeTraitExpr")
+    for n in nodes:
+        k = n.get("kind")
+        if k == "CompoundAssignOperator":
+            a, b = n["inner"]
+            if _is_ref(a, "l") and _is_ref(b, "d") and n.get("opcode") in ("+=", "-="):
+                shape.append("l%sd" % n["opcode"])
+            elif _is_ref(a, "d") and n.get("opcode") == ">>=" and const_eval(b) == 1:
+                shape.append("d>>=1")
+            elif _is_ref(a, "l") or _is_ref(a, "d"):
+                shape.append("other:" + c_text(n))
+        elif k == "BinaryOperator":
+            a, b = n["inner"]
+            op = n.get("opcode")
+            if op == "<" and _is_ref(a, "d") and is_size(b):
+                shape.append("d<S")
+            elif op in (">=", "==", ">", "<=", "!=", "<") and _is_ref(a, "l") and _is_ref(b, "end_tab"):
+                shape.append("l%send" % op)
+            elif op == "=" and _is_ref(a, "d"):
+                shape.append("d=%s" % (const_eval(b) if const_eval(b) is not None else c_text(b)))
+    sizes = [n["inner"][1] for n in nodes if n.get("kind") == "BinaryOperator" and n.get("opcode") == "<" and _is_ref(n["inner"][0], "d") and is_size(n["inner"][1])]
+    if not sizes:
+        raise TieBroken("switch:size", "no `d < SWITCH_CASE_SIZE` test in the search loop")
+    trz = Tr()
+    try:
+        sz = set(Tr().int_expr(x) for x in sizes)
+    except OutOfGrammar as e:
+        raise TieBroken("switch:size", "left the grammar: %s" % e)
+    if len(sz) != 1:
+        raise TieBroken("switch:size", "the `d < ..` tests compare with different values: %s" % sorted(sz))
+    out = ["/-- SWITCH_CASE_SIZE as the tests `d < SWITCH_CASE_SIZE` of f_switch see it -/\ndef switchCaseSize : Int :=\n  %s\n" % sz.pop(),
+           "/-- f_switch: multipliers of SWITCH_CASE_SIZE in `off_tab[]` (start entry for size code i) -/\ndef swOffTab : List Int :=\n  [%s]\n" %
+           ", ".join(str(m) for m in mult),
+           lean_def("swDInit", tr, dx, "f_switch: initial step in bytes `d = %s` (SWITCH_CASE_SIZE is the probe constant `switchCaseSize`)" % c_text(dinit[0]), "Int").replace(
+               "(off_tab_i : Int)", "(off_tab_i : Int)"),
+           "/-- f_switch: the updates of `l` / `d` and the tests against `end_tab` / SWITCH_CASE_SIZE inside the search loop, in SOURCE ORDER -/\n"
+           "def swShape : List String :=\n  [%s]\n" % ", ".join('"%s"' % x for x in shape)]
+    return "\n".join(out)
+
+
 NUL_MSG = "*Strings cannot contain 0 bytes."
 
 
@@ -1593,6 +1685,7 @@ def generate_all(bdir, tvals):
 
     def p_search():
         parts.append(extract_search_indices(bdir))
+        parts.append(extract_switch(bdir))
 
     def p_funptr():
         t, d = extract_funptr_dispatch(bdir)
